@@ -795,3 +795,8 @@ impl PeerHandler {
         }
     }
 }
+
+// Verification hooks (harnesses live in /verif/hooks); inert unless built with --cfg rdest_verif or by cargo-kani
+#[cfg(any(kani, rdest_verif))]
+#[path = "/verif/hooks/peer_handler.rs"]
+mod verif_hooks;
